@@ -176,7 +176,7 @@ def enumerate_faults(ctx, base, entry, rng, tier, stats):
 def work(ctx, tier):
     stats = {}
     rng = common.rng_for(ctx, "main")
-    nbase = (64 if tier == "quick" else 1600) // ctx.nshards
+    nbase = (200 if tier == "quick" else 2400) // ctx.nshards
     bases = base_scenarios(rng, nbase)
     for k, base in enumerate(bases):
         for entry in ENTRIES:
